@@ -169,7 +169,8 @@ class Gen:
         h = self.halves()
         if not h:
             return None
-        return ("half_complete", self.r.choice(h), self.r.choice(["hf", "hf2"]))
+        users = ["hf", "hf2"] + [n for n, (pw_, m_) in self.m.cfg.users.items() if m_] * 2
+        return ("half_complete", self.r.choice(h), self.r.choice(users))
 
     def g_half_probe(self, live):
         """a never-welcomed connection tries a gated command - aimed at the owner of the nickname it claimed, at
